@@ -380,7 +380,9 @@ class Report:
             pass
         ev = {"property_id": self.prop, "tier": self.tier, "seed": self.seed, "level": level, "coverage": cov,
               "assumptions": self.assumptions, "wall_s": round(wall, 2), "violations": len(self.violations),
-              "known_findings_hit": [k["id"] for k in self.known_hits]}
+              "known_findings_hit": [k["id"] for k in self.known_hits],
+              "violation_summaries": [{"what": v["what"][:300], "match_keys": v["match_keys"], "concrete": v["concrete"]}
+                                      for v in self.violations[:40]]}
         json.dump(ev, open(os.path.join(VERIF, "evidence", "%s.json" % self.prop), "w"), indent=1, default=str)
         for ln in lines:
             print(ln)
